@@ -187,7 +187,7 @@ func bigCases(c *Ctx, rng *Rand, near func(P int) int) []jcase {
 // ---------- C03 ----------
 
 func runC03(c *Ctx) {
-	c.R.Rule = "jpegls/lossless: images of 10 content classes (noise, two-level, long runs with rare interruptions, runs ending at " +
+	c.R.Rule = "jpegls/lossless: GolombWriter scripts against the as-coded writer model; images of 10 content classes (noise, two-level, long runs with rare interruptions, runs ending at " +
 		"line end, ramps, range-end samples, smooth, constant, checker, stripes), P 2..16 evenly, 1 or 3 components, sizes 1..64 " +
 		"(thorough: to 512x512, 65535x1, 1x65535), exhaustive small images at P=2/P=4 (quick: subset); non-trivial = more than one sample"
 	rng := c.Rng.Fork()
@@ -199,7 +199,10 @@ func runC03(c *Ctx) {
 	cases = append(cases, fixedLossless()...)
 	cases = append(cases, exhaustiveCases(c, func(int, int) []int { return []int{0} })...)
 	cases = append(cases, bigCases(c, rng, func(int) int { return 0 })...)
+	cases = append(cases, quotientCases(c, rng, true)...)
+	cases = append(cases, wideFlatCases(c, rng, []int{0})...)
 	guardCorr(c, false)
+	writerCorr(c)
 	ParallelFor(len(cases), c.Work, func(i int) {
 		im := cases[i].im
 		c.R.Case("ll:"+im.key(), im.nontrivial(), im.dist("ll")...)
@@ -216,7 +219,11 @@ func runC03(c *Ctx) {
 		}
 		if enc == nil {
 			c.R.Oracle("jls_roundtrip")
-			c.R.Fail("oracle", "jls_roundtrip", "jls:encode-fails:"+par, "lossless.Encode returned "+encS, im.input(nil))
+			sig := "jls:encode-fails:" + par
+			if encS == "panic" {
+				sig = "jls:panic:encode:" + par
+			}
+			c.R.Fail("oracle", "jls_roundtrip", sig, "lossless.Encode returned "+encS, im.input(nil))
 			return
 		}
 		// correspondence: decoder on the Go stream
@@ -228,7 +235,11 @@ func runC03(c *Ctx) {
 		// oracle: exact round trip with geometry and precision
 		c.R.Oracle("jls_roundtrip")
 		if dec.class != "ok" {
-			c.R.Fail("oracle", "jls_roundtrip", "jls:roundtrip:"+par, "lossless.Decode of the encoder output: "+dec.class, im.input(nil))
+			sig := "jls:roundtrip:" + par
+			if dec.class == "panic" {
+				sig = "jls:panic:decode:" + par
+			}
+			c.R.Fail("oracle", "jls_roundtrip", sig, "lossless.Decode of the encoder output: "+dec.class, im.input(nil))
 			return
 		}
 		if dec.w != im.w || dec.h != im.h || dec.comps != im.comps || dec.P != im.P {
@@ -359,7 +370,23 @@ func runC07(c *Ctx) {
 		return []int{1, 3, 7}
 	})...)
 	cases = append(cases, bigCases(c, rng, func(P int) int { return pickNear(rng, P) })...)
+	for i, wc := range wideFlatCases(c, rng, []int{0, 2}) {
+		if c.Thor || i%2 == 0 || wc.im.w == 65535 {
+			cases = append(cases, wc)
+		}
+	}
+	for i, qc := range quotientCases(c, rng, false) {
+		if !c.Thor && qc.im.comps == 1 && i%2 == 1 {
+			continue
+		}
+		cases = append(cases, qc) // NEAR = 0: the same long unary words as in the lossless encoder
+		if c.Thor {
+			qc.near = 1
+			cases = append(cases, qc)
+		}
+	}
 	guardCorr(c, true)
+	writerCorr(c) // nearlossless uses the same GolombWriter
 	ParallelFor(len(cases), c.Work, func(i int) {
 		im, near := cases[i].im, cases[i].near
 		c.R.Case(fmt.Sprintf("near%d:%s", near, im.key()), im.nontrivial(),
@@ -376,7 +403,11 @@ func runC07(c *Ctx) {
 		}
 		if enc == nil {
 			c.R.Oracle("jlsn_bound")
-			c.R.Fail("oracle", "jlsn_bound", "jlsn:encode-fails:"+par, "nearlossless.Encode returned "+encS, in)
+			sig := "jlsn:encode-fails:" + par
+			if encS == "panic" {
+				sig = "jlsn:panic:encode:" + par
+			}
+			c.R.Fail("oracle", "jlsn_bound", sig, "nearlossless.Encode returned "+encS, in)
 			return
 		}
 		dec := goDecNear(enc)
@@ -386,7 +417,11 @@ func runC07(c *Ctx) {
 		}
 		c.R.Oracle("jlsn_bound")
 		if dec.class != "ok" {
-			c.R.Fail("oracle", "jlsn_bound", "jlsn:decode-fails:"+par, "nearlossless.Decode of the encoder output: "+dec.class, in)
+			sig := "jlsn:decode-fails:" + par
+			if dec.class == "panic" {
+				sig = "jlsn:panic:decode:" + par
+			}
+			c.R.Fail("oracle", "jlsn_bound", sig, "nearlossless.Decode of the encoder output: "+dec.class, in)
 			return
 		}
 		if dec.w != im.w || dec.h != im.h || dec.comps != im.comps || dec.P != im.P {
@@ -487,6 +522,17 @@ func runC14(c *Ctx) {
 		return []int{0, 2}
 	})...)
 	cases = append(cases, bigCases(c, rng, func(P int) int { return rng.Pick(0, pickNear(rng, P)) })...)
+	for i, wc := range wideFlatCases(c, rng, []int{0, 2}) {
+		if c.Thor || i%5 == 0 {
+			cases = append(cases, wc)
+		}
+	}
+	for i, qc := range quotientCases(c, rng, false) {
+		if c.Thor || i%2 == 0 || qc.im.comps == 3 {
+			cases = append(cases, qc)
+		}
+	}
+	writerCorr(c)
 	if !c.HasModel() {
 		c.R.Note("no model: the T.87 decoder oracle (extracted t87_decode) was not evaluated")
 	}
@@ -511,10 +557,14 @@ func runC14(c *Ctx) {
 			}
 		}
 		if near > 0 {
-			_, enc := goEncNear(im, near)
+			encS, enc := goEncNear(im, near)
 			if enc == nil {
 				c.R.Oracle("t87_near")
-				c.R.Fail("oracle", "t87_near", fmt.Sprintf("jlsn:encode-fails:P=%d", im.P), "nearlossless.Encode failed", in)
+				sig := fmt.Sprintf("jlsn:encode-fails:P=%d", im.P)
+				if encS == "panic" {
+					sig = fmt.Sprintf("jlsn:panic:encode:P=%d:near=%s", im.P, nearClass(near))
+				}
+				c.R.Fail("oracle", "t87_near", sig, "nearlossless.Encode returned "+encS, in)
 				return
 			}
 			own := goDecNear(enc)
@@ -522,11 +572,15 @@ func runC14(c *Ctx) {
 			return
 		}
 		// NEAR = 0: both encoders
-		_, encL := goEncLL(im)
-		_, encN := goEncNear(im, 0)
+		encLS, encL := goEncLL(im)
+		encNS, encN := goEncNear(im, 0)
 		if encL == nil || encN == nil {
 			c.R.Oracle("near0_bytes")
-			c.R.Fail("oracle", "near0_bytes", fmt.Sprintf("jls:encode-fails:P=%d", im.P), "an encoder failed", in)
+			sig := fmt.Sprintf("jls:encode-fails:P=%d", im.P)
+			if encLS == "panic" || encNS == "panic" {
+				sig = fmt.Sprintf("jls:panic:encode:P=%d:comps=%d", im.P, im.comps)
+			}
+			c.R.Fail("oracle", "near0_bytes", sig, "lossless.Encode: "+clip(encLS)[:min(5, len(encLS))]+" nearlossless.Encode(0): "+clip(encNS)[:min(5, len(encNS))], in)
 			return
 		}
 		par := fmt.Sprintf("P=%d:comps=%d", im.P, im.comps)
